@@ -112,9 +112,18 @@ func matchGlyph(gid gID, value uint16) bool { return gid == gID(value) }
 // interprets `value` as a Class
 func matchClass(class tables.ClassDef) matcherFunc {
 	return func(gid gID, value uint16) bool {
-		c, _ := class.Class(gid)
-		return uint16(c) == value
+		return getClass(class, gid) == value
 	}
+}
+
+// getClass returns the class of `gid`, which is 0 when the ClassDef table
+// is missing (null offset), as for Null(ClassDef) in harfbuzz
+func getClass(class tables.ClassDef, gid gID) uint16 {
+	if class == nil {
+		return 0
+	}
+	c, _ := class.Class(gid)
+	return c
 }
 
 // interprets `value` as an index in coverage array
@@ -595,7 +604,7 @@ func (c *wouldApplyContext) wouldApplyLookupContext1(data tables.SequenceContext
 }
 
 func (c *wouldApplyContext) wouldApplyLookupContext2(data tables.SequenceContextFormat2, index int, glyphID GID) bool {
-	class, _ := data.ClassDef.Class(gID(glyphID))
+	class := getClass(data.ClassDef, gID(glyphID))
 	ruleSet := data.ClassSeqRuleSet[class]
 	return c.wouldApplyRuleSet(ruleSet, matchClass(data.ClassDef))
 }
@@ -632,7 +641,7 @@ func (c *wouldApplyContext) wouldApplyLookupChainedContext1(data tables.ChainedS
 }
 
 func (c *wouldApplyContext) wouldApplyLookupChainedContext2(data tables.ChainedSequenceContextFormat2, index int, glyphID GID) bool {
-	class, _ := data.InputClassDef.Class(gID(glyphID))
+	class := getClass(data.InputClassDef, gID(glyphID))
 	ruleSet := data.ChainedClassSeqRuleSet[class]
 	return c.wouldApplyChainRuleSet(ruleSet, matchClass(data.InputClassDef))
 }
@@ -1061,7 +1070,7 @@ func (c *otApplyContext) applyLookupContext1(data tables.SequenceContextFormat1,
 }
 
 func (c *otApplyContext) applyLookupContext2(data tables.SequenceContextFormat2, index int, glyphID GID) bool {
-	class, _ := data.ClassDef.Class(gID(glyphID))
+	class := getClass(data.ClassDef, gID(glyphID))
 	var ruleSet tables.SequenceRuleSet
 	if int(class) < len(data.ClassSeqRuleSet) {
 		ruleSet = data.ClassSeqRuleSet[class]
@@ -1096,7 +1105,7 @@ func (c *otApplyContext) applyLookupChainedContext1(data tables.ChainedSequenceC
 }
 
 func (c *otApplyContext) applyLookupChainedContext2(data tables.ChainedSequenceContextFormat2, index int, glyphID GID) bool {
-	class, _ := data.InputClassDef.Class(gID(glyphID))
+	class := getClass(data.InputClassDef, gID(glyphID))
 	var ruleSet tables.ChainedClassSequenceRuleSet
 	if int(class) < len(data.ChainedClassSeqRuleSet) {
 		ruleSet = data.ChainedClassSeqRuleSet[class]
